@@ -14,6 +14,7 @@ CONSTANT LMax       \* single loops have 1..LMax vertices
 CONSTANT NL         \* multi-loop polygons have 2..NL loops of 1..2 vertices
 CONSTANT LongSpec   \* long loops n*1000000 + a*1000 + b: vertex i is VASeq[((a*i + b*i*i) % |VA|) + 1]
 CONSTANT WP         \* word width of the coder sequences generated for the primitive binding
+CONSTANT CSizes     \* piece lengths of the transports ("transport" family): a reader delivers pieces of these lengths
 
 VASeq == SetToSortSeq(VA, <)
 VBSeq == SetToSortSeq(VB, <)
@@ -58,6 +59,10 @@ Next ==
        \/ t[1] = "simple" /\ t' \in {<<"polyline", n>> : n \in {0, 1, 2, 5}}
        \/ t[1] = "simple" /\ t' \in {<<"loop", LoopOf(cs)>> : cs \in NonEmptySeqs(VB, 3)}
        \/ t[1] = "simple" /\ t' \in {<<"point", 0>>, <<"cap", 0>>, <<"rect", 0>>}
+       \* transports: how the byte stream reaches the decoder.  mode "plain": an io.Reader without ReadByte
+       \* (Decode puts its own buffer in front); "byte": the decoder reads the pieces directly
+       \/ t[1] = "transport" /\ t' \in {<<"transport", [mode |-> m, pat |-> pt]>> :
+                                            m \in {"plain", "byte"}, pt \in NonEmptySeqs(CSizes, 2)}
        \/ t[1] = "prim" /\ t' \in {<<"coder", xs>> : xs \in NonEmptySeqs(0..(2 ^ WP - 1), 4)}
        \/ t[1] = "prim" /\ t' \in {<<"zigzag", w>> : w \in {WP, W}}
        \/ t[1] = "prim" /\ t' \in {<<"interleave", x>> : x \in 0..(2 ^ W - 1)}
@@ -89,6 +94,17 @@ ThCellUnion == Full /\ Kind = "cellunion" =>
 ThLoop == Full /\ Kind = "loop" =>
                     LET d == DecLoop(EncLoop(Val, 0), 1, 0)
                     IN  d.ok /\ d.v = LoopExpect(Val, -1, 0) /\ d.next = Len(EncLoop(Val, 0)) + 1
+
+\* Decode is independent of the chunking: on encodings of a lossless and a compressed model polygon
+\* (and on the stream cut short in the middle of a field) the decoder's reads see the same bytes
+TransportProbe == <<LoopOf(<<VASeq[1], VASeq[2], VASeq[3]>>), LoopOf(<<VASeq[2], VASeq[1]>>)>>
+ThTransport ==
+    Full /\ Kind = "transport" =>
+        \A fs \in {EncPolygonLossless(TransportProbe), EncPolygonCompressed(TransportProbe, SnapLevel(AllVerts(TransportProbe)), W)} :
+            LET szs == FieldSizes(fs)
+                n == SumSeq(szs)
+            IN  /\ ChunkingInvariant(StandIn(n), szs, Val.pat)
+                /\ ChunkingInvariant(StandIn(n - 5), szs, Val.pat)
 
 \* ---- emission ---------------------------------------------------------------
 Slim(fs) == [i \in 1..Len(fs) |-> [r |-> fs[i].r, b |-> fs[i].b, ref |-> fs[i].ref]]
@@ -130,5 +146,6 @@ Emit ==
                         enc |-> [i \in 1..Len(ys) |-> BitInterleave(Val, ys[i])]])>>)
            [] Kind = "uvarint" ->
                 PrintT(<<"CASE", ToJson([op |-> "wireprim", p |-> "uvarint", w |-> 0, xs |-> <<Val>>, enc |-> UV(Val)])>>)
+           [] Kind = "transport" -> PrintT(<<"TRANSPORT", ToJson(Val)>>)
            [] OTHER -> TRUE
 =============================================================================
